@@ -2,6 +2,7 @@
 import errno
 import itertools
 import os
+import random
 import z3
 from pyvc.api import Task, call, Interp
 from pyvc.sym import SBool, SInt, SObj, And, Or, Not, OutOfSubset
@@ -256,6 +257,49 @@ def _build(rnd, base, names):
             os.chmod(p, mode)   # after the chown: changing the owner clears the set-id bits
             os.utime(p, (1000 + rnd.randrange(50),) * 2)
             files.append(p)
+    # directories get a recorded time of their own as well (set last and bottom-up: creating a child moves its parent's time); drawn from a
+    # stream of its own so that the trees stay what they were
+    r2 = random.Random(len(names) * 7919 + sum(map(len, names)))
+    for dp, _dn, _fn in os.walk(base, topdown=False):
+        if dp != base and not os.path.islink(dp):
+            os.utime(dp, (4000 + r2.randrange(50),) * 2)
+
+
+def t_can_be_hardlinked(ex):
+    """fsFile._can_be_hardlinked(other): true exactly when other is a regular file, this entry carries a device and an inode number (entries
+    built from a record rather than from a file system have neither), and device, inode, owner, group, mode and mtime all agree"""
+    from pkgcore.fs import fs
+    from pyvc.sym import KInt, Opt, SBool, And, Not
+    P = "C18.fsFile._can_be_hardlinked"
+    it = Interp(ex, label=P)
+    other_is_reg = bool(ex.choose(2))
+
+    def ent(tag, with_nums):
+        f = {"location": f"/{tag}", "is_reg": True}
+        for n in ("uid", "gid", "mode", "mtime"):
+            f[n] = KInt.fresh(f"{tag}_{n}")
+        for n in ("dev", "inode"):
+            f[n] = KInt.fresh(f"{tag}_{n}") if with_nums[n] else None
+        return SObj(fs.fsFile, f)
+    nums_a = {"dev": bool(ex.choose(2)), "inode": bool(ex.choose(2))}
+    nums_b = {"dev": bool(ex.choose(2)), "inode": bool(ex.choose(2))}
+    a, b = ent("a", nums_a), ent("b", nums_b)
+    if not other_is_reg:
+        b.fields["is_reg"] = False
+    out = call(it, it.target("src/pkgcore/fs/fs.py", "fsFile._can_be_hardlinked"), a, b)
+    ex.oblige(f"{P}.raises.nothing", not out.raised, kind="exceptional-postcondition")
+    if out.raised:
+        return
+    got = out.value if isinstance(out.value, SBool) else SBool(z3.BoolVal(bool(out.value)))
+    if not other_is_reg or not all(nums_a.values()):
+        ex.oblige(f"{P}.ensures.false_for_a_non_file_or_an_entry_without_device_and_inode_numbers", Not(got))
+        return
+    if not all(nums_b.values()):
+        ex.oblige(f"{P}.ensures.false_when_the_other_entry_has_no_numbers", Not(got))
+        return
+    same = And(*[a.fields[n] == b.fields[n] for n in ("dev", "inode", "uid", "gid", "mode", "mtime")])
+    ex.oblige(f"{P}.ensures.true_exactly_when_device_inode_owner_group_mode_and_mtime_agree", got == same)
+
 
 
 NAMES = ["a", "b", "d1/a", "d1/b", "d1/d2/c", "x y", "d3/e", "link", "d1/link2"]
@@ -302,7 +346,7 @@ def enum_merges(seed):
                     fails.append({"model": model, "detail": f"merge_contents raised {type(e).__name__}: {e} merging {model['source']} into {model['root_before']}"})
                 continue
             after = _snapshot(root)
-            probs = []
+            probs, listed = [], []
             for k, w in want.items():
                 a = after.get(k)
                 if a is None:
@@ -318,8 +362,9 @@ def enum_merges(seed):
                     probs.append(f"{k}: mode/owner {oct(a[1])} {a[2]}:{a[3]}, recorded {oct(w[1])} {w[2]}:{w[3]}")
                 elif w[0] == "sym" and (a[2], a[3]) != (w[2], w[3]):   # a symlink has no mode of its own, but it has an owner
                     probs.append(f"{k}: symlink owner {a[2]}:{a[3]}, recorded {w[2]}:{w[3]}")
-                elif a[4] != w[4]:   # every kind of entry but a directory (whose own time moves when its children arrive)
-                    probs.append(f"{k}: {w[0]} mtime {a[4]}, recorded {w[4]}")
+                elif a[4] != w[4]:
+                    # a created directory that received children: its time is set when it is made and moves again when they arrive (listed finding)
+                    (listed if w[0] == "dir" and any(x.startswith(k + "/") for x in want) else probs).append(f"{k}: {w[0]} mtime {a[4]}, recorded {w[4]}")
             groups = {}
             for k, w in want.items():
                 if w[0] == "file":
@@ -335,8 +380,39 @@ def enum_merges(seed):
             for k in after:
                 if k not in want and k not in before:
                     probs.append(f"unrelated path {k} appeared")
-            if probs and len(fails) < 4:
+            if probs and sum(1 for f in fails if not f["model"].get("created_directory_with_children_lost_its_recorded_mtime")) < 4:
                 fails.append({"model": model, "detail": f"merging {model['source']} into {model['root_before']}: " + "; ".join(probs[:4])})
+            elif listed and not probs and sum(1 for f in fails if f["model"].get("created_directory_with_children_lost_its_recorded_mtime")) < 2:
+                fails.append({"model": dict(model, created_directory_with_children_lost_its_recorded_mtime=True), "detail": f"merging {model['source']} into {model['root_before']}: " + "; ".join(listed[:3])})
+        # entries built from a record instead of from a file system scan carry no device / inode numbers: files that agree in owner, mode and
+        # time are still files of their own (own data, link count 1); and a scanned hardlink group beside them is still linked
+        from pkgcore.fs import fs as _fs
+        from snakeoil.data_source import data_source as _ds
+        for variant in ("no numbers", "inode only", "strict=False without numbers"):
+            cases += 1
+            root = os.path.join(scratch, "rec-" + variant.replace(" ", "_").replace("=", ""))
+            os.makedirs(root)
+            datas = {"/etc-a.conf": b"alpha = 1\n", "/etc-b.conf": b"beta = 2, and some more bytes\n", "/sub/c.conf": b"gamma\n"}
+            kw = dict(mode=0o644, uid=0, gid=0, mtime=1234, strict=False)
+            if variant == "inode only":
+                kw["inode"] = 77
+            ents = [_fs.fsDir("/sub", mode=0o755, uid=0, gid=0, mtime=1234, strict=False)] + [_fs.fsFile(loc, data=_ds(d), **kw) for loc, d in datas.items()]
+            model = {"entries_built_by_hand": variant, "files": sorted(datas)}
+            try:
+                ops.merge_contents(contents.contentsSet(ents), offset=root)
+                probs = []
+                for loc, d in datas.items():
+                    p_ = os.path.join(root, loc.lstrip("/"))
+                    got = open(p_, "rb").read()
+                    if got != d:
+                        probs.append(f"{loc} holds {got!r}, its data is {d!r}")
+                    if os.stat(p_).st_nlink != 1:
+                        probs.append(f"{loc} has link count {os.stat(p_).st_nlink}: it shares an inode with another entry although nothing says they were one file")
+                if probs and len(fails) < 6:
+                    fails.append({"model": model, "detail": f"merging three record-built files ({variant}) with equal owner, mode and time: " + "; ".join(probs[:3])})
+            except Exception as e:
+                if len(fails) < 6:
+                    fails.append({"model": model, "detail": f"merging three record-built files ({variant}) raised {type(e).__name__}: {e}"})
     finally:
         shutil.rmtree(scratch, ignore_errors=True)
     return {"name": "C18.merge_contents.bounded_enumeration", "bound": "40 seeded random content trees (<= 7 of 9 names: files with odd modes/owners/mtimes, hardlink groups, symlinks incl. dangling, fifos, nested "
@@ -349,8 +425,10 @@ def tasks():
         Task("C18.ensure_perms", t_ensure_perms, [(OPS, "ensure_perms")]),
         Task("C18.mkdir", t_mkdir, [(OPS, "mkdir"), (OPS, "ensure_perms")]),
         Task("C18.do_link", t_do_link, [(OPS, "do_link")]),
+        Task("C18.fsFile._can_be_hardlinked", t_can_be_hardlinked, [("src/pkgcore/fs/fs.py", "fsFile._can_be_hardlinked")]),
         Task("C18.merge_contents", None, [(OPS, "merge_contents")], enumerate=enum_merges),
     ]
 
 
 REPLAY = {}
+WITNESSES = {"created_directory_with_children": lambda m: bool(m.get("created_directory_with_children_lost_its_recorded_mtime"))}
